@@ -104,11 +104,14 @@ def axioms_audit(module, names):
         os.unlink(tmp)
     out = p.stdout
     per, problems = {}, []
-    for m in re.finditer(r"'([^']+)' (depends on axioms: \[([^\]]*)\]|does not depend on any axioms)", out):
-        ax = [a.strip() for a in (m.group(3) or '').replace('\n', ' ').split(',') if a.strip()]
-        per[m.group(1)] = ax
+    flat = out.replace('\n', ' ')
+    for n in names:
+        m = re.search(re.escape("'" + n + "'") + r" (depends on axioms: \[([^\]]*)\]|does not depend on any axioms)", flat)
+        if not m: continue
+        ax = [a.strip() for a in (m.group(2) or '').split(',') if a.strip()]
+        per[n] = ax
         bad = [a for a in ax if a not in ALLOWED_AXIOMS]
-        if bad: problems.append('%s uses %s' % (m.group(1), bad))
+        if bad: problems.append('%s uses %s' % (n, bad))
     for n in names:
         if n not in per: problems.append('no axiom report for %s' % n)
     if p.returncode != 0: problems.append('lean exited %d: %s' % (p.returncode, out[-400:]))
